@@ -122,28 +122,16 @@ POSITIVE = ("StrideW", "StrideH", "StrideD", "DilationWFactor", "DilationHFactor
 # Option members the UNCHANGED tree does not carry through the round trip (genuine findings of this check, reported to
 # the lead; reproduction: harness/repro/c11_fields_findings.py).  The bindings are switched off, not special-cased in
 # the oracle: remove an entry to have the sweep cover the member again.
-OPTION_MEMBERS_OFF = {
-    ("TransposeConvOptions", "FusedActivationFunction"):
-        "tflite_mapping.py lists only padding / stride_h / stride_w for TRANSPOSE_CONV: the fused activation is lost",
-}
+OPTION_MEMBERS_OFF = {}      # (the TransposeConvOptions entry was repaired in /repo, finding M1)
 
 
 # single values the unchanged tree rewrites (reported likewise)
-OPTION_VALUES_OFF = {
-    ("DepthwiseConv2DOptions", "DepthMultiplier", 0):
-        "tflite_reader.py replaces the implicit depth multiplier 0 by the value computed from the shapes and the "
-        "writer stores that value",
-}
+OPTION_VALUES_OFF = {}       # implicit depth multiplier 0: known finding M2, reported by the check
 
 
 # Tensor members the UNCHANGED tree loses (findings as above).  A class listed here is not generated; delete the entry
 # to switch the class on (plan() then adds networks that carry the member on interface and CPU-operator tensors).
-TENSOR_CLASSES_OFF = {
-    "float_minmax_only": "a tensor whose quantisation table holds min / max but no scale / zero point (float models of "
-                         "the TOCO era) comes back without them: tflite_reader.py drops the whole table",
-    "shape_signature": "Tensor.shape_signature (dynamic dimensions) is never read nor written",
-    "has_rank": "Tensor.has_rank is never read nor written",
-}
+TENSOR_CLASSES_OFF = {}      # float min/max-only tables, shape_signature, has_rank: known findings M3, M4, reported by the check
 TENSOR_CLASSES = ("float_minmax_only", "shape_signature", "has_rank")
 
 
@@ -461,9 +449,19 @@ def plan(cases, tier, sd, rng):
         nonzero_default = any(kind in ("bool", "int") and dflt for _, kind, dflt, _ in mems)
         if quick:
             ops_here = [o for o in opns if o in SHAPED] or [opns[(sd + ti) % len(opns)]]
-            rounds = [0, 1, 2] if nonzero_default or ops_here[0] in SHAPED else [(sd + ti) % 3]
+            rounds = [0, 1, 2] if nonzero_default or ops_here[0] in SHAPED else ([(sd + ti) % 3] if ti % 3 == sd % 3 else [])
         else:
             ops_here, rounds = opns, [0, 1, 2]
+        # one instance with every member away from its schema default: a member the (de)serialiser forgets shows
+        dflts = {m[0]: (m[2] if m[1] in ("bool", "int", "float") else None) for m in mems}
+        values, covered = {}, []
+        for mem, kind, dflt, elem in mems:
+            a = alts[(table, mem)]
+            nd = [(k_, v_) for k_, v_ in a if v_ is not None and v_ != dflts[mem] and v_ not in ([], "", {"f32": []})] or a
+            key, value = nd[(sd + ti) % len(nd)]
+            values[mem] = value
+            covered.append((key, mem))
+        instances.append((ops_here[0], values, covered))
         for oi, opn in enumerate(ops_here):
             for r in rounds:
                 values, covered = {}, []
@@ -481,7 +479,7 @@ def plan(cases, tier, sd, rng):
                 have.add(key)
                 instances.append((by_table[table][sd % len(by_table[table])], {mem: value}, [(key, mem)]))
     rng.shuffle(instances)
-    per = 5
+    per = 6
     shaped = [i for i in instances if i[0] in SHAPED]
     plain = [i for i in instances if i[0] not in SHAPED]
     for group, size in ((plain, per), (shaped, 3)):
